@@ -176,7 +176,7 @@ PROPERTIES = {
     },
     'C17': {
         'units': SM_KICK + SM_FP + [sm.IdentityApply, sm.KickMapApplyTo, sm.FokkerPlanckApplyTo,
-                                    ps.RulerCtor, ps.SimpsonWeights, ps.UpdateXProjection, ps.UpdateYProjection, ps.Integrate, ps.Normalize, ps.Average, ps.Variance, ps.Swap,
+                                    ps.RulerCtor, ps.SimpsonWeights, ps.UpdateXProjection, ps.UpdateYProjection, ps.Integrate, ps.Normalize, ps.Average, ps.Variance, ps.Swap, ps.MakePSFromTXTLoop,
                                     ef.PadBunchProfiles, ef.WakePotential, ef.UpdateCSR,
                                     mainspec.MainConfig] + Z_UNITS,
         'leaves': [leaf.UpperPow2Leaf, leaf.FPApplyToLeaf, leaf.KickApplyToLeaf, leaf.PSxLeaf],
@@ -185,7 +185,7 @@ PROPERTIES = {
         'claim': 'every array subscript, pointer range (copy_n/fill_n/inner_product/FFT buffers), float-to-integer conversion, signed overflow, unsigned index product and division in the units under contract '
                  'is proved defined under the class invariants, and main establishes the padded-buffer precondition for every bucket; unbounded in all sizes',
         'assumptions': [A_IDEAL, A_LIB, DROPS, 'libraries are memory safe when their stated preconditions hold', 'documented option domain (see MainConfig.requires and domain_after)'],
-        'uncovered': ['functions not under contract: PhaseSpace constructors, PhaseSpaceFactory (TXT/HDF5 start distributions), HDF5File, ProgramOptions, Impedance::readData, RotationMap, Display',
+        'uncovered': ['functions not under contract: PhaseSpace constructors, the HDF5 start distribution (HDF5File::readPhaseSpace), the file-opening and line-counting prologue of makePSFromTXT (its particle loop is under contract with std::istream modelled by fail/eof flags), HDF5File, ProgramOptions, Impedance::readData, RotationMap, Display',
                       'uninitialised reads (tables are written before use by construction order, checked only where a unit reads what it wrote)',
                       ],
         'explanation': 'automatic safety obligations of all units',
